@@ -6,6 +6,7 @@ from ..cfg import cfg_of
 from ..srcmodel import AnalysisError
 from ..rules import tables as T
 from ..rules import dom
+from ..rules import parser as P
 from . import c03
 
 
@@ -83,10 +84,11 @@ def no_swallowing(ctx):
             n += 1
             ok = True
             why = ''
+            class_exprs = P.class_lookup_exprs(f.node, f.params[0]) if f.params else set()
             for st in h.body:
                 if isinstance(st, ast.Try) or isinstance(st, ast.Raise):
                     continue
-                if isinstance(st, ast.Assign) and isinstance(st.value, ast.Call) and 'eval(convert_to_xml_class_name(' in unparse(st.value.func):
+                if isinstance(st, ast.Assign) and isinstance(st.value, ast.Call) and unparse(st.value.func) in class_exprs:
                     continue
                 if isinstance(st, ast.Expr) and isinstance(st.value, ast.Call) and unparse(st.value.func) == 'setattr':
                     continue
@@ -196,14 +198,14 @@ def text_only_stripped(ctx):
     rets = [n for n in g.stmt_nodes() if n.kind == 'return']
     ok = bool(rets)
     detail = ''
+    class_exprs = P.class_lookup_exprs(conv.node, conv.params[0])
     for r in rets:
         v = r.ast.value
         if not isinstance(v, ast.Name):
             ok, detail = False, short(r.ast)
             continue
         ds = dom.reaching_defs(g, v.id, r)
-        if not ds or not all(isinstance(d.ast, ast.Assign) and isinstance(d.ast.value, ast.Call) and isinstance(d.ast.value.func, ast.Call) and
-                             unparse(d.ast.value.func.func) == 'eval' for d in ds):
+        if not ds or not all(isinstance(d.ast, ast.Assign) and isinstance(d.ast.value, ast.Call) and unparse(d.ast.value.func) in class_exprs for d in ds):
             ok, detail = False, f"{short(r.ast)}: defined by {[short(d.ast, 50) for d in ds]}"
     res.check(ok and g.path_avoiding(g.entry, g.exit, avoid=rets) is None, 'R-CONSUME', conv.fq,
               "every normal path returns the element constructed from the node's tag", fail_detail=detail or 'a path ends without a return', key='R-CONSUME|converter-return')
